@@ -3,4 +3,5 @@ let () =
   match Array.to_list Sys.argv with
   | _ :: "int" :: rest -> Intmain.run (List.mem "--spec" rest)
   | _ :: "cov" :: _ -> Covmain.run ()
+  | _ :: "cmp" :: _ -> Cmpmain.run ()
   | _ -> prerr_endline "usage: zwmodel int [--spec] | cov"; exit 2
